@@ -42,6 +42,10 @@ func genOps(r *rand.Rand, n int, ties bool) []opKey {
 			// duplicate of an earlier operation (same canonical reference, same anchoring data)
 			d := out[r.Intn(len(out))]
 			k.t, k.n, k.canon = d.t, d.n, d.canon
+		} else if ties && i > 0 && r.Intn(5) == 0 {
+			// the same canonical reference anchored again elsewhere (other time / number, listed
+			// before or after the first): the earliest anchoring is the one to keep
+			k.canon = out[r.Intn(len(out))].canon
 		}
 		out = append(out, k)
 	}
